@@ -78,7 +78,8 @@ def handle : Handler := fun j a => do
     let nodes := ((jOpt j "nodes_after").bind fun n => n.getArr?.toOption).getD #[] |>.toList
     for nd in nodes do
       let h := jStrOr nd "host" ""
-      if hosts.contains h && h != master && jBoolOr nd "alive" false then
+      -- a host the operator took out of the registry during the run is nobody's business any more
+      if hosts.contains h && h != master && jBoolOr nd "alive" false && h != jStrOr j "dropped" "" then
         let ro := jBoolOr nd "ro" false
         let isRep := jBoolOr nd "is_replica" false
         let src := jStrOr nd "source" ""
